@@ -58,6 +58,7 @@ def gen_cases(tier, seed):
         cases.append(dict(src="dense", m=m, n=n, fam="eps", seed=seed))
         if m <= 4:
             cases.append(dict(src="dense", m=m, n=n, fam="rowscale", seed=seed))
+    cases.append(dict(src="bufreuse", fam="bufreuse", seed=seed))  # one instance, one matrix buffer re-filled in place (mc/bufreuse.py)
     return cases
 
 
@@ -239,6 +240,15 @@ def _reuse_check(mats, viol):
 
 
 def run_case(case):
+    if case["fam"] == "bufreuse":
+        import torch
+        from torchjd.aggregation import DualProj, UPGrad
+
+        from mc import bufreuse
+
+        pv = lambda dt: torch.tensor([1.0, 2.0, 3.0], dtype=dt) / 6  # noqa: E731
+        return bufreuse.run({"UPGrad": lambda dt: UPGrad(), "UPGrad|p": lambda dt: UPGrad(pref_vector=pv(dt)), "DualProj": lambda dt: DualProj(),
+                             "DualProj|p": lambda dt: DualProj(pref_vector=pv(dt)), "UPGrad|eps": lambda dt: UPGrad(norm_eps=1e-2, reg_eps=1e-6)})
     mats = _matrices(case)
     viol, outcomes, execs, nontriv, dropped, margin, maxima = [], set(), 0, 0, 0, 0.0, {}
     if case["fam"] == "eps":
